@@ -705,6 +705,76 @@ def check_mmap_options(mir_text, src):
                  holds=not viol and n > 0, witnesses=viol[:4], vacuous=(n < 4))]
 
 
+WRAPPERS = (("map_mut", "map_mut_in", "mmap_mut"), ("map_mut_with_path_builder", "map_mut_in", "mmap_mut"),
+            ("map_copy", "map_mut_in", "mmap_copy"), ("map_copy_with_path_builder", "map_mut_in", "mmap_copy"),
+            ("map", "map_in", "mmap"), ("map_with_path_builder", "map_in", "mmap"),
+            ("map_copy_read_only", "map_in", "mmap_copy_read_only"), ("map_copy_read_only_with_path_builder", "map_in", "mmap_copy_read_only"))
+
+
+class WrapExec(RExec):
+    """map_mut_in / map_in are decided by R1-R4: opaque here, so that the arguments the wrappers hand them can be read off"""
+
+    def call(self, stk, fr, t, cnd):
+        func = t.a["func"]
+        meth = sym.strip_generics(func).split("::")[-1]
+        if meth in ("map_mut_in", "map_in") and t.a["target"] is not None:
+            args = [self.operand(stk, fr, a) for a in t.a["args"]]
+            v = self.synth("Result<Memory, std::io::Error>", meth)
+            self.add_effect(stk, {"kind": "call", "func": "Memory::" + meth, "result": v, "args": args})
+            self.write_place(stk, fr, t.a["dest"], v)
+            fr.bb = t.a["target"]
+            return None
+        return RExec.call(self, stk, fr, t, cnd)
+
+
+def check_wrappers(mir_text, src):
+    """R10: each public open function reaches the open routine with the mapping helper of its mode (shared writable,
+    private copy-on-write, read-only, private read-only) and with the caller's Options unchanged"""
+    prog = sym.Program(mir_text, src)
+    cfg = {"mir_text": mir_text, "mem_layouts": {}, "layouts": {("size_of", "H"): H_SIZE, ("align_of", "H"): 8}, "summaries": {}}
+    viol = []
+    total = 0
+    done = []
+    for wname, inner, helper in WRAPPERS:
+        names = [n for n in prog.raw if re.search(r"^memory::<impl at [^>]*>::%s$" % wname, n)]
+        if len(names) != 1:
+            viol.append({"function": wname, "why": "wrapper not found / ambiguous"})
+            continue
+        ex = WrapExec(prog, cfg)
+        fn = prog.fn(names[0])
+        fr = Frame(fn, ("E",), {}, gen=["H"])
+        opts = Sym("opts", "options::Options")
+        fr.locals[1] = Sym("path_or_builder", "P")
+        fr.locals[2] = opts
+        try:
+            ends = ex.run([fr], [])
+        except Unsupported as u:
+            viol.append({"function": wname, "why": "not explored: %s" % u})
+            continue
+        seen = False
+        for e in ends:
+            if e.kind != "done":
+                continue
+            total += 1
+            effs = e.stack[0].locals.get("EFF", ())
+            calls = [x for x in effs if x["func"] in ("Memory::map_mut_in", "Memory::map_in")]
+            if not calls:
+                continue  # the path builder failed before any open
+            seen = True
+            c = calls[-1]
+            tag = getattr(c["args"][2], "tag", repr(c["args"][2])) if len(c["args"]) == 3 else "?"
+            hname = tag.replace("fnitem", "").split("::")[-1].strip()
+            if c["func"] != "Memory::" + inner or hname != helper or len(calls) != 1:
+                viol.append({"function": wname, "calls": c["func"], "helper": tag[-60:], "why": "%s must reach %s with the `%s` mapping helper" % (wname, inner, helper)})
+            if c["args"][1] is not opts:
+                viol.append({"function": wname, "why": "the caller's Options are not passed on unchanged"})
+        if seen:
+            done.append(wname)
+    return [dict(function="memory::<impl>::{%s}" % ", ".join(w for w, _, _ in WRAPPERS), paths=total, ok_paths=total, id="R10",
+                 text="open wrappers: map_mut* -> map_mut_in(mmap_mut), map_copy* -> map_mut_in(mmap_copy), map* -> map_in(mmap), map_copy_read_only* -> map_in(mmap_copy_read_only), Options passed on unchanged (wrappers explored: %d)" % len(done),
+                 holds=not viol, witnesses=viol[:4], vacuous=(len(done) < len(WRAPPERS)))]
+
+
 def check_flush(mir_text, src):
     """R8: the explicit flush family only ever asks the map object to write back: no store into the mapping, no file-level mutator,
     so "with or without an explicit flush" cannot change what a later reopen finds"""
@@ -844,6 +914,7 @@ def main():
         out["obligations"] += check_file_open(mir_text, src)
         out["obligations"] += check_flush(mir_text, src)
         out["obligations"] += check_mmap_options(mir_text, src)
+        out["obligations"] += check_wrappers(mir_text, src)
         out["obligations"] += check_arena_from(mir_text, src, "sync")
         out["obligations"] += check_arena_from(mir_text, src, "unsync")
     except Unsupported as e:
